@@ -120,10 +120,6 @@ theorem inv_exec (sched : List Act) (s s' : St) (hi : Inv s) (hs : exec s sched 
       exact ih s1 (inv_step s s1 a hi h1) hs
     · cases hs
 
-/-- Records that have left the executor or are about to: the consumer can still receive exactly these once
-    every remaining candidate is marked. -/
-def inFlight (s : St) : Nat := s.recvd.length + s.buf.length + (if s.hand.isSome then 1 else 0)
-
 /-- Every candidate still to be visited is marked (the re-flag of all of them has returned). -/
 def Closed (s : St) : Prop := ∀ x ∈ s.todo, x ∈ s.prot
 
